@@ -515,7 +515,11 @@ def oracle_C16(hi, ops, obs):
         # mints and burns nothing and moves nothing out of the two pools
         prev = obs[j-1]
         okl = [lf for (_, _, lf) in successful_leaves(ob, b)]
-        if okl and all(lf.kind in ('PARAMS', 'OTHER') for lf in okl) and any(lf.kind == 'PARAMS' for lf in okl) \
+        # x/slashing punishes at the first block *after* the window filled up, whatever that block's own vote says: a
+        # validator jailed in this block means the BeginBlocker slashed (false alarm of the thorough tier, envelope 738)
+        pv, nv = prev.get('vals') or {}, b.get('vals') or {}
+        punished = any(v['jailed'] and not (pv.get(o) or {}).get('jailed', False) for o, v in nv.items())
+        if okl and all(lf.kind in ('PARAMS', 'OTHER') for lf in okl) and any(lf.kind == 'PARAMS' for lf in okl) and not punished \
                 and not b['halt'] and 'pool' in b and prev.get('pool') and not any(v[2] for v in ob['votes']) and not ob.get('evid'):
             if b['pool'][2] != prev['pool'][2] or b['pool'][0] + b['pool'][1] != prev['pool'][0] + prev['pool'][1]:
                 out.append(Viol(hi, b['h'], 'params-moved-funds', f"pools/supply {prev['pool']} -> {b['pool']}"))
